@@ -2,6 +2,7 @@ package main
 
 import (
 	"fmt"
+	"iter"
 
 	"github.com/welllog/golib/dsz"
 	"github.com/welllog/golib/setz"
@@ -9,8 +10,9 @@ import (
 
 // C16: setz.Bits / setz.Bitmap / dsz.Bits as sets of uint.
 // case = kind :: ops, op = [code target arg]
-//   0 Add 1 Remove 2 Contains 3 Len 4 Cap 5 Grow 6 Iter 7 Range(stop after arg calls; 0 = never) 8 All(same)
-//   9 Diff 10 Intersect 11 Merge (target op= other)  12 Clone (other := clone of target)
+//
+//	0 Add 1 Remove 2 Contains 3 Len 4 Cap 5 Grow 6 Iter 7 Range(stop after arg calls; 0 = never) 8 All(same)
+//	9 Diff 10 Intersect 11 Merge (target op= other)  12 Clone (other := clone of target)
 func c16Impl(in []int64) []int64 {
 	kind := in[0]
 	var out []int64
@@ -18,6 +20,7 @@ func c16Impl(in []int64) []int64 {
 	switch kind {
 	case 0: // setz.Bits
 		var s [2]setz.Bits
+		held := [2]iter.Seq[uint]{s[0].All(), s[1].All()} // taken from the zero values
 		for i := 0; i+2 < len(ops); i += 3 {
 			c, t, a := ops[i], int(ops[i+1]&1), ops[i+2]
 			o := 1 - t
@@ -47,12 +50,17 @@ func c16Impl(in []int64) []int64 {
 				out = append(out, PutList(l)...)
 			case 8:
 				var l []int64
-				for v := range s[t].All() {
+				seq := s[t].All()
+				if held[t] != nil && (a+int64(len(out)))%2 == 0 {
+					seq = held[t] // obtained earlier: a view of the set when walked, not when made
+				}
+				for v := range seq {
 					l = append(l, int64(v))
 					if a > 0 && int64(len(l)) >= a {
 						break
 					}
 				}
+				held[t] = s[t].All()
 				out = append(out, PutList(l)...)
 			case 9:
 				s[t].Diff(s[o])
